@@ -80,12 +80,17 @@ namespace riddle
                 break;
             }
             case LBRACE_ID:
+            case LPAREN_ID:
+            case PLUS_ID:
+            case MINUS_ID:
             case BANG_ID:
+            case NEW_ID:
             case FACT_ID:
             case GOAL_ID:
             case BoolLiteral_ID:
             case IntLiteral_ID:
             case RealLiteral_ID:
+            case StringLiteral_ID:
                 stmnts.emplace_back(_statement());
                 break;
             case ID_ID:
@@ -110,7 +115,7 @@ namespace riddle
                 break;
             }
             default:
-                error("expected either 'typedef' or 'enum' or 'class' or 'predicate' or 'void' or identifier..");
+                error("expected either a declaration or a statement..");
             }
         }
 
